@@ -120,7 +120,7 @@ func ruleSFund(c *Ctx) {
 		return
 	}
 	nc := nextCalls[0]
-	// the loop: header phi tested != 0
+	// the supplier is called inside a loop
 	var header *ssa.BasicBlock
 	for x := nc.Block(); x != nil; x = x.Idom() {
 		if isLoopHeader(x) {
@@ -132,43 +132,110 @@ func ruleSFund(c *Ctx) {
 		c.Fail("S-fund", "supplier/in-loop", nc.Pos(), "the supplier call is not inside a loop")
 		return
 	}
-	var deficit *ssa.Phi
-	guardOK := false
-	if iff, ok := header.Instrs[len(header.Instrs)-1].(*ssa.If); ok {
-		if bo, ok := iff.Cond.(*ssa.BinOp); ok {
-			if ph, ok := bo.X.(*ssa.Phi); ok && ph.Block() == header {
-				if k, ok := bo.Y.(*ssa.Const); ok && isZeroConst(k) {
-					deficit = ph
-					// the body is entered on deficit != 0 (or > 0 for the unsigned value)
-					body := header.Succs[0]
-					if bo.Op == token.EQL {
-						body = header.Succs[1]
-					}
-					guardOK = (bo.Op == token.NEQ || bo.Op == token.GTR || bo.Op == token.EQL) && body.Dominates(nc.Block())
-				}
+	// what the supplier is given: an estimateDeficit(fq) result of the receiver (directly, or merged
+	// at the loop head from such results)
+	isEstimate := func(v ssa.Value) bool {
+		ex, ok := v.(*ssa.Extract)
+		if !ok || ex.Index != 0 {
+			return false
+		}
+		call, ok := ex.Tuple.(*ssa.Call)
+		return ok && call.Call.StaticCallee() != nil && funcName(call.Call.StaticCallee()) == "(*bt.Tx).estimateDeficit" && call.Call.Args[0] == ssa.Value(tx) && call.Call.Args[1] == ssa.Value(fq)
+	}
+	deficit := nc.Call.Args[1]
+	edgesOK := isEstimate(deficit)
+	if ph, ok := deficit.(*ssa.Phi); ok {
+		edgesOK = len(ph.Edges) > 0
+		for _, e := range ph.Edges {
+			if !isEstimate(e) {
+				edgesOK = false
 			}
 		}
 	}
-	c.Check(guardOK, "S-fund", "supplier/only-while-deficit", nc.Pos(), "the supplier call is dominated by the loop test deficit != 0", "the supplier can be called although no deficit remains (its call is not guarded by the loop test on the deficit)")
-	if deficit == nil {
-		return
-	}
-	argOK := len(nc.Call.Args) == 2 && nc.Call.Args[0] == ssa.Value(fn.Params[1]) && nc.Call.Args[1] == ssa.Value(deficit)
-	c.Check(argOK, "S-fund", "supplier/given-current-deficit", nc.Pos(), "the supplier receives the caller's context and the loop's current deficit", "the supplier is not given the current deficit (second argument is not the loop-carried deficit value)")
-	// the deficit is always an estimateDeficit(fq) result of this tx
-	edgesOK := true
-	for _, e := range deficit.Edges {
-		ex, ok := e.(*ssa.Extract)
-		if !ok || ex.Index != 0 {
-			edgesOK = false
+	argOK := len(nc.Call.Args) == 2 && nc.Call.Args[0] == ssa.Value(fn.Params[1])
+	c.Check(argOK && edgesOK, "S-fund", "supplier/given-current-deficit", nc.Pos(), "the supplier receives the caller's context and an estimateDeficit(fq) result of the receiver", "the supplier is not given the current deficit (second argument is not an estimateDeficit result of the transaction being funded)")
+	// the call is reached only with that value different from zero
+	guardOK := false
+	for _, dc := range dominatingConds(nc.Block()) {
+		bo, ok := dc.cond.(*ssa.BinOp)
+		if !ok || bo.X != deficit || !isZeroConst(bo.Y) {
 			continue
 		}
-		call, ok := ex.Tuple.(*ssa.Call)
-		if !ok || call.Call.StaticCallee() == nil || funcName(call.Call.StaticCallee()) != "(*bt.Tx).estimateDeficit" || call.Call.Args[0] != ssa.Value(tx) || call.Call.Args[1] != ssa.Value(fq) {
-			edgesOK = false
+		switch bo.Op {
+		case token.NEQ, token.GTR:
+			guardOK = guardOK || dc.truth
+		case token.EQL:
+			guardOK = guardOK || !dc.truth
 		}
 	}
-	c.Check(edgesOK && len(deficit.Edges) == 2, "S-fund", "deficit/recomputed", deficit.Pos(), "on entry and after every batch the deficit is estimateDeficit(fq) of the receiver", "the loop-carried deficit is not recomputed from the transaction after each batch")
+	c.Check(guardOK, "S-fund", "supplier/only-while-deficit", nc.Pos(), "the supplier call is dominated by the test deficit != 0 on the value it is given", "the supplier can be called although no deficit remains (its call is not guarded by a test of the deficit it is given)")
+	// the estimate is fresh: on every path the last funding event before the supplier call is
+	// estimateDeficit, the last one before FromUTXOs is the supplier call (forward must-analysis over the
+	// control-flow graph, loop edges included)
+	last := map[*ssa.BasicBlock]string{}
+	evOf := func(ins ssa.Instruction) string {
+		call, ok := ins.(*ssa.Call)
+		if !ok {
+			return ""
+		}
+		if call == nc {
+			return "supplier"
+		}
+		if sc := call.Call.StaticCallee(); sc != nil {
+			switch funcName(sc) {
+			case "(*bt.Tx).estimateDeficit":
+				return "estimate"
+			case "(*bt.Tx).FromUTXOs":
+				return "add"
+			}
+		}
+		return ""
+	}
+	stale := ""
+	for iter := 0; iter < 10; iter++ {
+		changed := false
+		for _, b := range fn.Blocks {
+			in := ""
+			for i, p := range b.Preds {
+				o, seen := last[p]
+				if !seen {
+					continue
+				}
+				if i == 0 || in == "" {
+					in = o
+				} else if in != o {
+					in = "mixed"
+				}
+			}
+			if b.Index == 0 {
+				in = "entry"
+			}
+			cur := in
+			for _, ins := range b.Instrs {
+				e := evOf(ins)
+				if e == "" {
+					continue
+				}
+				if iter == 9 {
+					if e == "supplier" && cur != "estimate" {
+						stale = "the supplier is called with " + cur + " as the last funding step before it: the deficit it is given is not the current one"
+					}
+					if e == "add" && cur != "supplier" {
+						stale = "FromUTXOs runs with " + cur + " as the last funding step before it"
+					}
+				}
+				cur = e
+			}
+			if last[b] != cur {
+				last[b] = cur
+				changed = true
+			}
+		}
+		if !changed && iter < 8 {
+			iter = 8
+		}
+	}
+	c.Check(stale == "", "S-fund", "deficit/recomputed", nc.Pos(), "on every path the deficit handed to the supplier was estimated after the last batch was added", "the deficit is not recomputed from the transaction after each batch: "+stale)
 	// the batch goes to FromUTXOs unmodified
 	batchOK := false
 	if len(fromCalls) == 1 {
@@ -189,7 +256,7 @@ func ruleSFund(c *Ctx) {
 	}
 	c.Check(batchOK, "S-fund", "batch/passed-through", nc.Pos(), "the supplier's batch is handed to FromUTXOs as returned", "the supplier's batch is filtered, reordered or otherwise touched before FromUTXOs")
 	// path shapes
-	names := map[string]bool{"estimateDeficit": true, "FromUTXOs": true, "Is": true}
+	names := map[string]bool{"FromUTXOs": true, "Is": true} // (where the estimate stands is decided by deficit/recomputed)
 	paths, err := feasiblePaths(fn, 5000)
 	if err != nil {
 		c.Undecided("S-fund", "paths", fn.Pos(), err.Error())
@@ -223,15 +290,27 @@ func ruleSFund(c *Ctx) {
 		}
 		ev = append(ev, returnDesc(d))
 		got[strings.Join(ev, "; ")] = true
+		if returnDesc(d) == "return nil" {
+			// success is reported only when an estimate was zero
+			zero := false
+			for _, pc := range d.Conds {
+				a, flip := canonAtom(atomName(pc.Cond))
+				if strings.Contains(a, "estimateDeficit(p0, p2)#0 == 0)") && pc.Truth != flip {
+					zero = true
+				}
+			}
+			if !zero {
+				c.Fail("S-fund", "success-without-zero-deficit", d.Ret.Pos(), "Fund can return nil on a path on which no estimated deficit was found to be zero: "+shorten(d.CondString(), 300))
+			}
+		}
 	}
 	want := setOf(
-		"estimateDeficit; return err",
-		"estimateDeficit; return nil",
-		"estimateDeficit; supplier; errors.Is(ErrNoUTXO); return ErrInsufficientFunds",
-		"estimateDeficit; supplier; return err",
-		"estimateDeficit; supplier; FromUTXOs; return err",
-		"estimateDeficit; supplier; FromUTXOs; estimateDeficit; return err",
-		"estimateDeficit; supplier; FromUTXOs; estimateDeficit; loop",
+		"return err",
+		"return nil",
+		"supplier; errors.Is(ErrNoUTXO); return ErrInsufficientFunds",
+		"supplier; return err",
+		"supplier; FromUTXOs; return err",
+		"supplier; FromUTXOs; loop",
 	)
 	same := len(got) == len(want)
 	for k := range got {
@@ -340,13 +419,36 @@ func ruleGMapFromUTXOs(c *Ctx) {
 	for f, wv := range want {
 		c.Check(got[f] == wv, "G-map", "Tx.FromUTXOs/"+f, fn.Pos(), f+" = "+wv, fmt.Sprintf("the new input's %s is %q, the UTXO's field %s is required", f, got[f], wv))
 	}
-	for f := range got {
-		if _, ok := want[f]; !ok {
-			c.Fail("G-map", "Tx.FromUTXOs/extra/"+f, fn.Pos(), "the new input's "+f+" is set to "+got[f]+", which the funding contract does not specify")
+	// the txid: through PreviousTxIDAdd (validates, then stores), or stored directly into the literal when
+	// the append is dominated by IsValidTxID(utxo.TxID) having held
+	directTxID := false
+	if v, ok := got["previousTxID"]; ok && v == elem+".TxID" {
+		for _, b := range fn.Blocks {
+			for _, ins := range b.Instrs {
+				call, isC := ins.(*ssa.Call)
+				if !isC {
+					continue
+				}
+				if bi, isB := call.Call.Value.(*ssa.Builtin); !isB || bi.Name() != "append" || appendTargetField(call) != "Inputs" {
+					continue
+				}
+				for _, dc := range dominatingConds(b) {
+					if vc, isCall := dc.cond.(*ssa.Call); isCall && dc.truth && vc.Call.StaticCallee() != nil && vc.Call.StaticCallee().Name() == "IsValidTxID" && w.term(vc.Call.Args[0]) == elem+".TxID" {
+						directTxID = true
+					}
+				}
+			}
 		}
 	}
-	c.Check(strings.Join(calls, "; ") == "PreviousTxIDAdd("+elem+".TxID); tx.addInput(input)", "G-map", "Tx.FromUTXOs/txid-then-append", fn.Pos(), "txid validated and stored, then the input appended: "+strings.Join(calls, "; "),
-		"FromUTXOs no longer validates/stores the UTXO's txid and then appends the input: "+strings.Join(calls, "; "))
+	for f := range got {
+		if _, ok := want[f]; !ok && !(f == "previousTxID" && directTxID) {
+			c.Fail("G-map", "Tx.FromUTXOs/extra/"+f, fn.Pos(), "the new input's "+f+" is set to "+got[f]+", which the funding contract does not specify (for the txid: without the validity test)")
+		}
+	}
+	seq := strings.Join(calls, "; ")
+	okSeq := seq == "PreviousTxIDAdd("+elem+".TxID); tx.addInput(input)" || (directTxID && seq == "tx.addInput(input)")
+	c.Check(okSeq, "G-map", "Tx.FromUTXOs/txid-then-append", fn.Pos(), "txid validated and stored, then the input appended: "+seq,
+		"FromUTXOs no longer validates/stores the UTXO's txid and then appends the input: "+seq)
 	// helpers: PreviousTxIDAdd stores its argument after the validity test; addInput appends to tx.Inputs
 	if h := c.P.Func("", "*Input", "PreviousTxIDAdd"); h != nil {
 		ok := false
